@@ -4,6 +4,7 @@ Theorems about `exec` for all register files and states, plus the regenerated st
 -/
 import NadaVerif.Props.C12
 import NadaVerif.Spec.Schema
+import NadaVerif.Lemmas.FnExact
 
 namespace NadaVerif.C11
 open NadaVerif NadaVerif.Spec NadaVerif.Generated
@@ -104,5 +105,12 @@ theorem fn_record (fr : Frame) (rest : List Frame) (ret : Reg) (ann : STy) (c : 
       (.ok ([.fn fr.fid ann fr.pnames], rest),
        { s with ops := (fr.fid, .function fr.name (fr.params.map (·.1)) c (.scalar ann.mirName)) :: s.ops }) := by
   simp_exec [hr, hnl, hall]
+
+/-- Each function is emitted exactly once, however many map / reduce / call sites (in the program or in other
+function bodies) use it, and every site is bound to an emitted function — for every store and output list. -/
+theorem fn_emitted_once (st : St) (outs : List OutDecl) (m : MirProg) (h : compile st outs = .ok m) :
+    (m.functions.map (·.id)).Nodup ∧
+    ∀ t ∈ allTables m, ∀ e ∈ t, ∀ f, e.2.fnRef = some f → count f (m.functions.map (·.id)) = 1 :=
+  Lemmas.compile_fn_resolve st outs m h
 
 end NadaVerif.C11
